@@ -33,6 +33,45 @@ fn eq_k(a: &[u32; 80], b: &[u32; 80]) -> bool {
 }
 pub fn any_gift() -> Gift128 { Gift128 { k: kani::any() } }
 
+/// Lock-step oracle for the S-box layer in the composition obligations below.  Both sides of those obligations are
+/// built from the same reference functions (the stubs of quintuple_round are spec functions that call
+/// bcref::gift::sub_cells, and so does the expected value): while the cipher under test runs, every call of
+/// sub_cells / inv_sub_cells is recorded with an unconstrained result; while the expected value is computed, its j-th
+/// call must have the same argument (asserted) and gets the recorded result.  Sound because sub_cells is a function
+/// (it is literally the same function on both sides); it spares the solver 2 x 40 x 32 table lookups.
+pub mod orc_s {
+    pub const MAXC: usize = 48;
+    pub static mut X: [u128; MAXC] = [0; MAXC];
+    pub static mut O: [u128; MAXC] = [0; MAXC];
+    pub static mut INV: [bool; MAXC] = [false; MAXC];
+    pub static mut N: usize = 0;
+    pub static mut K: usize = 0;
+    pub static mut REPLAY: bool = false;
+    #[allow(static_mut_refs)]
+    fn call(inv: bool, x: u128) -> u128 {
+        unsafe {
+            if !REPLAY {
+                let o: u128 = kani::any();
+                assert!(N < MAXC);
+                X[N] = x;
+                O[N] = o;
+                INV[N] = inv;
+                N += 1;
+                o
+            } else {
+                assert!(K < N);
+                assert!(INV[K] == inv && X[K] == x, "lock-step: the expected value makes the same S-box layer call");
+                K += 1;
+                O[K - 1]
+            }
+        }
+    }
+    pub fn sub_cells(x: u128) -> u128 { call(false, x) }
+    pub fn inv_sub_cells(x: u128) -> u128 { call(true, x) }
+    pub fn replay() { unsafe { REPLAY = true; } }
+    pub fn all_replayed() -> bool { unsafe { K == N } }
+}
+
 // GIFT_RC[r], read in the fixsliced order of round r mod 5, is the paper's constant of round r (bit 31 set: the
 // "b_127 xor 1", bits 5..0 the LFSR value c5..c0 acting on b_23, b_19, b_15, b_11, b_7, b_3)
 // @ob name=c_gift_rc props=C10 kind=exhaustive fn=gift_cipher::consts::GIFT_RC timeout=120
@@ -71,26 +110,34 @@ fn spec_decrypt_state(k: &[u32; 80], c: u128) -> u128 {
 #[kani::stub(crate::primitives::packing, spec_packing)]
 #[kani::stub(crate::primitives::unpacking, spec_unpacking)]
 #[kani::stub(crate::primitives::quintuple_round, spec_quintuple_round)]
+#[kani::stub(bcref::gift::sub_cells, orc_s::sub_cells)]
+#[kani::stub(bcref::gift::inv_sub_cells, orc_s::inv_sub_cells)]
 #[kani::unwind(130)]
 fn c_gift_enc() {
     let c = any_gift();
     let b: [u8; 16] = kani::any();
     let mut blk = Array(b);
     cipher::BlockCipherEncrypt::encrypt_block(&c, &mut blk);
+    orc_s::replay();
     assert!(u128::from_be_bytes(blk.0) == spec_encrypt_state(&c.k, u128::from_be_bytes(b)));
+    assert!(orc_s::all_replayed());
 }
 // @ob name=c_gift_dec props=C10,C20 kind=contract fn=gift_cipher::Gift128::decrypt_block uses=c_packing,c_inv_quintuple_round,c_gift_rc timeout=600
 #[kani::proof]
 #[kani::stub(crate::primitives::packing, spec_packing)]
 #[kani::stub(crate::primitives::unpacking, spec_unpacking)]
 #[kani::stub(crate::primitives::inv_quintuple_round, spec_inv_quintuple_round)]
+#[kani::stub(bcref::gift::sub_cells, orc_s::sub_cells)]
+#[kani::stub(bcref::gift::inv_sub_cells, orc_s::inv_sub_cells)]
 #[kani::unwind(130)]
 fn c_gift_dec() {
     let c = any_gift();
     let b: [u8; 16] = kani::any();
     let mut blk = Array(b);
     cipher::BlockCipherDecrypt::decrypt_block(&c, &mut blk);
+    orc_s::replay();
     assert!(u128::from_be_bytes(blk.0) == spec_decrypt_state(&c.k, u128::from_be_bytes(b)));
+    assert!(orc_s::all_replayed());
 }
 
 // public API == GIFT-128 on bytes, every key and block
@@ -100,6 +147,8 @@ fn c_gift_dec() {
 #[kani::stub(crate::primitives::packing, spec_packing)]
 #[kani::stub(crate::primitives::unpacking, spec_unpacking)]
 #[kani::stub(crate::primitives::quintuple_round, spec_quintuple_round)]
+#[kani::stub(bcref::gift::sub_cells, orc_s::sub_cells)]
+#[kani::stub(bcref::gift::inv_sub_cells, orc_s::inv_sub_cells)]
 #[kani::unwind(130)]
 fn c_gift_api_enc() {
     let key: [u8; 16] = kani::any();
@@ -107,7 +156,9 @@ fn c_gift_api_enc() {
     let c = <Gift128 as KeyInit>::new(&Array(key));
     let mut blk = Array(b);
     cipher::BlockCipherEncrypt::encrypt_block(&c, &mut blk);
+    orc_s::replay();
     assert!(eq_n(&blk.0, &g::encrypt_bytes(&key, &b)));
+    assert!(orc_s::all_replayed());
 }
 // @ob name=c_gift_api_dec props=C10,C20 kind=contract fn=gift_cipher::Gift128::new,gift_cipher::Gift128::decrypt_block uses=c_precompute_rkeys,c_packing,c_inv_quintuple_round,c_gift_rc timeout=600
 #[kani::proof]
@@ -115,6 +166,8 @@ fn c_gift_api_enc() {
 #[kani::stub(crate::primitives::packing, spec_packing)]
 #[kani::stub(crate::primitives::unpacking, spec_unpacking)]
 #[kani::stub(crate::primitives::inv_quintuple_round, spec_inv_quintuple_round)]
+#[kani::stub(bcref::gift::sub_cells, orc_s::sub_cells)]
+#[kani::stub(bcref::gift::inv_sub_cells, orc_s::inv_sub_cells)]
 #[kani::unwind(130)]
 fn c_gift_api_dec() {
     let key: [u8; 16] = kani::any();
@@ -122,7 +175,9 @@ fn c_gift_api_dec() {
     let c = <Gift128 as KeyInit>::new(&Array(key));
     let mut blk = Array(b);
     cipher::BlockCipherDecrypt::decrypt_block(&c, &mut blk);
+    orc_s::replay();
     assert!(eq_n(&blk.0, &g::decrypt_bytes(&key, &b)));
+    assert!(orc_s::all_replayed());
 }
 
 // C01 on the real functions, every state (no stubs)
